@@ -48,6 +48,10 @@ type LSpec struct {
 	UserPkgUses map[string]string `json:"user_pkg_uses,omitempty"`
 	// PkgNames: directory → package name used by the declaring packages.
 	PkgNames map[string]string `json:"pkg_names"`
+	// GlobalOutFile: `-g "output:file X"` on the command line (applies to every converter
+	// that has no output:file of its own; relative to each declaring file). Only drawn for
+	// worlds without goverter:variables blocks.
+	GlobalOutFile string `json:"global_out_file,omitempty"`
 	// CwdDir: the directory (relative to the module root) goverter is invoked in; "" = module
 	// root. `@cwd/` outputs resolve against it (go:generate runs goverter in the package dir).
 	CwdDir string `json:"cwd_dir,omitempty"`
@@ -107,6 +111,9 @@ type Predicted struct {
 func (s *LSpec) Predict(c *LConv) Predicted {
 	var p Predicted
 	of := c.OutFile
+	if of == "" && s.GlobalOutFile != "" && c.Kind == "interface" {
+		of = s.GlobalOutFile
+	}
 	switch {
 	case of == "" && c.Kind == "interface":
 		p.Path = path.Join(c.Dir, "generated", "generated.go")
@@ -338,6 +345,9 @@ func (s *LSpec) World(name string) *World {
 	for _, d := range s.PlainPkgs {
 		w.Patterns = append(w.Patterns, "./"+d)
 	}
+	if s.GlobalOutFile != "" {
+		w.Globals = append(w.Globals, "output:file "+s.GlobalOutFile)
+	}
 	sort.Strings(w.Patterns)
 	if s.Tag != "" || s.TagList != "" {
 		w.BuildTags = strp(s.tag())
@@ -511,6 +521,26 @@ func DrawLayout(rng *rand.Rand, nConv int, opts LayoutOpts) *LSpec {
 	if opts.GuardedUser && rng.IntN(3) == 0 {
 		s.GuardedUser = true
 	}
+	hasVars := false
+	for i := range s.Convs {
+		if s.Convs[i].Kind == "variables" {
+			hasVars = true
+		}
+	}
+	if opts.GlobalOutFile && !hasVars && rng.IntN(4) == 0 {
+		s.GlobalOutFile = []string{"./cli-gen/out.go", "../cli_up/all.go", "@cwd/cli/shared.go"}[rng.IntN(3)]
+		// converters that now share a file must carry the same output:package text
+		first := map[string]*LConv{}
+		for i := range s.Convs {
+			c := &s.Convs[i]
+			p := s.Predict(c).Path
+			if f, ok := first[p]; ok {
+				c.OutPkg = f.OutPkg
+			} else {
+				first[p] = c
+			}
+		}
+	}
 	if rng.IntN(4) == 0 {
 		s.PlainPkgs = []string{[]string{"plainpkg", "zz/plainpkg", "aa_plain"}[rng.IntN(3)]}
 	}
@@ -518,6 +548,7 @@ func DrawLayout(rng *rand.Rand, nConv int, opts LayoutOpts) *LSpec {
 }
 
 type LayoutOpts struct {
+	GlobalOutFile bool
 	CustomTags  bool
 	Absolute    bool
 	Guarded     bool
